@@ -9,7 +9,7 @@ SHIMS = {"cue/literal/export_verif.go": "harness/c09/shims/literal_export.go.txt
 
 TRUSTED = [
     "Coq 8.16.1 kernel; vm_compute only in Examples (closed witnesses); no axioms (Print Assumptions: closed)",
-    "hand-written Gallina transcription of cue/literal/quote.go (Form.Append, appendEscaped, appendEscapedRune, isPrint, singleLineHashCount, requiredHashCount), cue/literal/string.go (ParseQuotes, Unquote, QuoteInfo.Unquote, unquoteChar, hasClosingDelimPrefix, skipWhitespaceAfterNewline, isSimple) and of Go's unicode/utf8 DecodeRuneInString / AppendRune / DecodeLastRuneInString, strconv.IsPrint Latin-1 fast path, unicode.IsSpace",
+    "hand-written Gallina transcription of cue/literal/quote.go (Form.Append, appendEscaped, appendEscapedRune, isPrint, singleLineHashCount, requiredHashCount), cue/literal/string.go (ParseQuotes, Unquote, QuoteInfo.Unquote, unquoteChar, hasClosingDelimPrefix, skipWhitespaceAfterNewline, isSimple), cue/literal/indent.go (IndentTabs with strings.Repeat / strings.ReplaceAll for a non-empty search string) and of Go's unicode/utf8 DecodeRuneInString / AppendRune / DecodeLastRuneInString, strconv.IsPrint Latin-1 fast path, unicode.IsSpace",
     "strconv.IsPrint / IsGraphic for runes > 0xFF are universally quantified in the theorems; the harness supplies Go's verdicts per case for the correspondence",
     "correspondence: extracted OCaml model (ExtrOcamlBasic only; N/Z/nat kept as Coq datatypes) vs the Go implementation built from /repo's working tree via go build -overlay; re-export shim cue/literal/export_verif.go (error classes by identity); a sub-sample re-evaluated with vm_compute by coqc",
     "OCaml driver ocaml/c09_driver.ml, Go harness harness/c09 (generators, error-class projection), checks/C09.py (comparison, Go-rule sanitize used as expected value)",
@@ -88,9 +88,12 @@ def coq_outcome(r):
 def xcheck(ctx, cases, model):
     """Re-evaluate a deterministic sub-sample with vm_compute inside Coq: the
     extraction (and the driver glue) must agree with the kernel's evaluation."""
-    ucases, qcases = [], []
+    ucases, qcases, icases = [], [], []
     for idx, (c, m) in enumerate(zip(cases, model)):
         p = c.split(" ")
+        if p[0] == "I" and len(p[1]) <= 200 and idx % 11 == 0 and len(icases) < 40:
+            mr = m.split(" ")[0]
+            icases.append("(%s, (%s)%%Z, %s)" % (coq_list(unhex(p[1])), p[2], coq_outcome(mr)))
         if p[0] == "U" and len(p[1]) <= 240 and idx % 23 == 0 and len(ucases) < 60:
             ucases.append("(%s, %s)" % (coq_list(unhex(p[1])), coq_outcome(m.split(" ")[0])))
         if p[0] == "Q" and len(p[2]) <= 160 and idx % 41 == 0 and len(qcases) < 40:
@@ -106,17 +109,19 @@ def xcheck(ctx, cases, model):
                 tbl = "[" + "; ".join(ents) + "]"
             qcases.append("(%s, (%s), %s, %s)" % (tbl, form, coq_list(unhex(p[2])), coq_list(unhex(m.split(" ")[0]))))
     src = ("From Verif Require Import Utf8.Model Lit.Quote Lit.Unquote Extract.C09.\n"
-           "From Coq Require Import List NArith.\nImport ListNotations.\nOpen Scope N_scope.\n"
+           "From Coq Require Import List NArith ZArith.\nImport ListNotations.\nOpen Scope N_scope.\n"
            "Definition ucases : list (str * outcome str) := [%s].\n"
            "Definition qcases : list (tbl * form * str * str) := [%s].\n"
+           "Definition icases : list (str * Z * outcome str) := [%s].\n"
            "Eval vm_compute in (c09_xcheck_unquote ucases, c09_xcheck_quote qcases).\n"
-           % (";\n ".join(ucases), ";\n ".join(qcases)))
+           "Eval vm_compute in (c09_xcheck_indent icases).\n"
+           % (";\n ".join(ucases), ";\n ".join(qcases), ";\n ".join(icases)))
     vf = os.path.join(ctx.work, "xcheck.v")
     with open(vf, "w") as f:
         f.write(src)
     p = vlib.run(["timeout", "600", "coqc", "-Q", os.path.join(vlib.COQ, "theories"), "Verif", vf], cwd=ctx.work, check=False)
-    ok = p.returncode == 0 and "= (true, true)" in p.stdout
-    return {"unquote_cases": len(ucases), "quote_cases": len(qcases), "agree": ok, "out": p.stdout[-400:] if not ok else ""}
+    ok = p.returncode == 0 and "= (true, true)" in p.stdout and "= true\n" in p.stdout.replace("\r", "")
+    return {"unquote_cases": len(ucases), "quote_cases": len(qcases), "indent_cases": len(icases), "agree": ok, "out": p.stdout[-400:] if not ok else ""}
 
 
 def lead2(form, s):
@@ -160,9 +165,9 @@ def run(ctx):
                 f.write(rp.get("case", "") + "\n")
             args += ["--replay-cases", cf]
     elif quick:
-        args += ["--nq", "4000", "--nu", "4000", "--ncodec", "1500"]
+        args += ["--nq", "4000", "--nu", "4000", "--ncodec", "1500", "--ni", "3000"]
     else:
-        args += ["--nq", "150000", "--nu", "150000", "--ncodec", "40000"]
+        args += ["--nq", "150000", "--nu", "150000", "--ncodec", "40000", "--ni", "100000"]
     vlib.run(args, timeout=3000)
     cases = open(os.path.join(ctx.work, "cases.txt")).read().split("\n")[:-1]
     impl = open(os.path.join(ctx.work, "impl.txt")).read().split("\n")[:-1]
@@ -185,7 +190,10 @@ def run(ctx):
     lap("lit_run")
     kinds = {}
     dist = {"forms": {}, "content": {"invalid-utf8": 0, "newlines": 0, "quotes-or-backslash": 0, "controls": 0, "non-ascii": 0, "empty": 0},
-            "len_hist": {}, "unquote_results": {}, "hash_counts": {}}
+            "len_hist": {}, "unquote_results": {}, "hash_counts": {},
+            "indent_tabs": {"I_reindented": 0, "I_returned_as_is": 0, "I_panic_negative_n": 0, "I_literal_accepted": 0,
+                            "I_literal_rejected": 0, "I_value_preserved": 0, "J_multiline_k>0_bytewise_requote": 0,
+                            "J_multiline_k=0": 0, "J_single_line": 0, "n_hist": {}}}
     distinct = set()
     nontrivial = 0
     mism = 0
@@ -284,6 +292,77 @@ def run(ctx):
                         "what": "literal.Unquote(x) (value or error class) differs from the model's unquote on this literal text"},
                        no_input=True)
             if len(samples) < 7 and new and len(c) < 200 and kinds[k] % 499 == 7:
+                samples.append({"case": c, "impl": i, "model": m})
+        elif k == "I":
+            ip, mp = i.split(" "), m.split(" ")
+            n = int(pc[2])
+            it = dist["indent_tabs"]
+            if new:
+                it["n_hist"][str(n) if -1 <= n <= 4 else ("<-1" if n < 0 else ">4")] = it["n_hist"].get(str(n) if -1 <= n <= 4 else ("<-1" if n < 0 else ">4"), 0) + 1
+                if ip[0] == "panic":
+                    it["I_panic_negative_n"] += 1
+                elif ip[0] == "ok:" + pc[1]:
+                    it["I_returned_as_is"] += 1
+                else:
+                    it["I_reindented"] += 1
+                    nontrivial += 1
+                it["I_literal_accepted" if ip[2].startswith("ok:") else "I_literal_rejected"] += 1
+            if ip[0] == "panic" and n >= 0:
+                mism += 1
+                report({"kind": "indent-tabs-panics", "case": c, "literal_hex": pc[1], "n": n, "impl": i, "model": m,
+                        "what": "literal.IndentTabs panics for a non-negative indentation; the model is total for n >= 0 "
+                                "(C09_indent_tabs_go_total)"})
+            elif ip[0] != "panic" and ip[2].startswith("ok:") and ip[1] != ip[2]:
+                # the property: re-indentation never changes what an accepted literal means
+                mism += 1
+                report({"kind": "indent-tabs-changes-value", "case": c, "literal_hex": pc[1], "n": n, "impl": i, "model": m,
+                        "what": "literal.Unquote(literal.IndentTabs(lit, n)) differs from literal.Unquote(lit) for a literal that "
+                                "Unquote accepts: re-indentation changed (or broke) the value; lit and n are the failing input"})
+            elif i != m:
+                mism += 1
+                report({"kind": "impl-differs-from-proved-model", "case": c, "impl": i, "model": m,
+                        "what": "literal.IndentTabs(lit, n) (bytewise), or Unquote of it, differs from the model's indent_tabs"},
+                       no_input=True)
+            elif ip[0] != "panic" and ip[2].startswith("ok:"):
+                if new:
+                    it["I_value_preserved"] += 1
+            if len(samples) < 9 and new and len(c) < 200 and kinds[k] % 211 == 9:
+                samples.append({"case": c, "impl": i, "model": m})
+        elif k == "J":
+            form, s_, n = pc[1], unhex(pc[2]), int(pc[4])
+            fp = form.split(":")
+            eff_ml = fp[1] == "1" or (fp[2] == "1" and b"\n" in s_)
+            kk = int(fp[6])
+            ip = i.split(" ")
+            expected = "ok:" + hexs(s_ if form[0] == "b" else go_sanitize(s_))
+            it = dist["indent_tabs"]
+            if new:
+                it["J_single_line" if not eff_ml else ("J_multiline_k>0_bytewise_requote" if kk > 0 else "J_multiline_k=0")] += 1
+                if eff_ml and kk != n:
+                    nontrivial += 1
+            if len(ip) != 4:
+                mism += 1
+                report({"kind": "indent-tabs-panics", "case": c, "impl": i, "model": m,
+                        "what": "Form.Quote or literal.IndentTabs panics on this (form, text, n)"})
+            elif ip[3] != expected:
+                mism += 1
+                report({"kind": "indent-tabs-changes-value", "case": c, "impl": i, "model": m, "expected": expected,
+                        "what": "literal.Unquote(literal.IndentTabs(form.Quote(s), n)) differs from s (bytes forms) / sanitize(s): "
+                                "re-indenting a literal written by Quote changed its value (C09_unquote_indent_tabs_quote)"})
+            elif eff_ml and kk > 0 and ip[1] != ip[2]:
+                mism += 1
+                report({"kind": "indent-tabs-differs-from-requote", "case": c, "impl": i, "model": m,
+                        "what": "IndentTabs(f.Quote(s), n) differs bytewise from f.WithTabIndent(n).Quote(s) for a multi-line literal "
+                                "written with k > 0 tabs (proved equal for the model: C09_indent_tabs_quote)"})
+            elif not eff_ml and ip[1] != ip[0]:
+                mism += 1
+                report({"kind": "indent-tabs-differs-from-requote", "case": c, "impl": i, "model": m,
+                        "what": "IndentTabs changed a single-line literal written by Quote"})
+            elif i != m:
+                mism += 1
+                report({"kind": "impl-differs-from-proved-model", "case": c, "impl": i, "model": m,
+                        "what": "Quote / IndentTabs / re-Quote (bytewise) or Unquote differ from the model"}, no_input=True)
+            if len(samples) < 11 and new and len(c) < 200 and kinds[k] % 197 == 3:
                 samples.append({"case": c, "impl": i, "model": m})
         else:
             if k == "S":
@@ -404,7 +483,8 @@ def run(ctx):
                 "Quote (pass 2); U = literal texts: hand-assembled (escapes with right/wrong hash counts, \\x \\u \\U octal, surrogate "
                 "pairs, CRLF, indentation variants, escaped newlines, interpolation starts) and mutated literals (malformed stream): "
                 "Unquote value or error class vs model; D/E/S = unicode/utf8 decode, decode-last, encode, range. non-trivial: Q with "
-                "len(text) >= 2 whose quoted body differs from the text; U accepted (ok) with >= 4 bytes; counted over distinct case lines",
+                "len(text) >= 2 whose quoted body differs from the text; U accepted (ok) with >= 4 bytes; I whose result differs from the literal; "
+                "J multi-line with n != k; counted over distinct case lines",
         "samples": samples,
         "case_kinds": kinds,
         "corpus_cases": corpus_n,
@@ -435,7 +515,12 @@ MANIFEST = {
             "value > 0x10FFFF is a syntax error; an int32 accumulator provably panics and is kept as regression layer, so that "
             "a reappearance is reported as a violation with the literal). The model is tied to /repo by bytewise "
             "agreement of Quote, exact agreement of Unquote (value or error class) on valid and mutated literals, and "
-            "cross-validation in both directions. Parser totality, AST position invariants and scanner/literal/parser agreement "
+            "cross-validation in both directions. literal.IndentTabs (indent.go) is modelled with strings.ReplaceAll: for every text, "
+            "public form and n, IndentTabs(f.Quote(s), n) is bytewise f.WithTabIndent(n).Quote(s) when Quote wrote a multi-line literal "
+            "with k > 0 tabs (refuted with witness for k = 0: empty lines get indented), so re-indentation never changes the value read "
+            "back; IndentTabs is total for n >= 0 and panics exactly for n < 0; the tie compares IndentTabs bytewise on generated, "
+            "mutated and Quote-written literals and checks Unquote(IndentTabs(lit, n)) = Unquote(lit) on every accepted literal "
+            "(that general statement is checked, not proved). Parser totality, AST position invariants and scanner/literal/parser agreement "
             "are explored directly on the implementation (not proved).",
     "note": "Trusted: Coq kernel; the hand-written model of quote.go/string.go/utf8; strconv.IsPrint/IsGraphic tables > 0xFF are "
             "quantified over (no hypotheses); extraction + OCaml/Go drivers; the recursive-descent parser and the scanner are not "
